@@ -46,7 +46,24 @@ def gen(S, tier):
             kind = "string"
         reqs.append({"fmt": k, "tokens": toks, "lenient": w.chance(0.3), "raw": kind, "notes": notes,
                      "script": w.pick(["prog", "prog", "prog", "-c", "", "python -m tool", "/usr/bin/app"])})
-    return {"pool": pool, "requests": reqs}
+    # a fraction of the histories is also compared, request by request, with a parse done in a process
+    # of its own: a fresh interpreter state under another PYTHONHASHSEED (dsim.zygote peer)
+    peer = S("config").chance(0.025)
+    if peer:
+        # defaults that are equal as Python values but of different types (1, 1.0, True), spread over
+        # the formats of the pool, and requests that ask for them: what a value cache would confuse
+        fam = c.pick([[1, True, 1.0], [0, False, 0.0]])
+        for spec in pool:
+            lv = spec
+            while lv is not None:
+                for o in lv["opts"]:
+                    if o[2] & (fmtgen.O_OPT | fmtgen.O_REQ) and c.chance(0.6):
+                        o[3] = c.pick(fam)
+                lv = lv.get("base")
+        # ... and a bare line per format (every required argument missing at once)
+        for k in range(len(pool)):
+            reqs.append({"fmt": k, "tokens": [], "lenient": False, "raw": "argv", "notes": ["bare"], "script": "prog"})
+    return {"pool": pool, "requests": reqs, "peer": peer}
 
 
 def simplify(sc):
@@ -119,6 +136,69 @@ def _raw(kind, tokens, script="prog"):
         return StringArgs(" ".join(tokens)), None
     argv = [script] + list(tokens)
     return ArgvArgs(argv), argv
+
+
+ME = "dsim.props.c05_parser_reuse"
+HASHSEED_SENSITIVE = ("depends_on_process",)
+try:
+    import clikit.args as _ca  # noqa: imported with this module, hence preloaded in the peer interpreter
+    import clikit.api.args.format as _caf  # noqa
+except ImportError:  # pragma: no cover
+    pass
+
+
+def _preload():
+    import clikit.args  # noqa  (so that the peer's per-request children need not import it)
+    import clikit.api.args.format  # noqa
+
+
+def ref_request(pool, k, rq):
+    """ONE parse of ONE request by a new parser - run in a child of the peer interpreter."""
+    from clikit.args import DefaultArgsParser
+    fmt = fmtgen.build(pool[k])
+    raw, _ = _raw(rq["raw"], list(rq["tokens"]), rq.get("script", "prog"))
+    return _outcome(DefaultArgsParser(), raw, fmt, rq["lenient"])
+
+
+def ref_history(pool, requests):
+    """The whole history in ONE (pristine) process, a new parser for every request."""
+    from clikit.args import DefaultArgsParser
+    formats = [fmtgen.build(s) for s in pool]
+    out = []
+    for rq in requests:
+        if rq["fmt"] >= len(formats):
+            out.append(None)
+            continue
+        raw, _ = _raw(rq["raw"], list(rq["tokens"]), rq.get("script", "prog"))
+        out.append(_outcome(DefaultArgsParser(), raw, formats[rq["fmt"]], rq["lenient"]))
+    return out
+
+
+def setup():
+    from .. import zygote
+    zygote.ensure()
+
+
+def _far_checks(sc, res):
+    """Every request as the ONLY parse of a pristine process - forked from this interpreter's zygote
+    and from the peer interpreter (other hash seed) - and the history as a whole in one pristine
+    process.  All three are pure functions of the scenario: nothing this worker did before matters."""
+    from .. import zygote
+    res.probe("compared_with_another_interpreter")
+    hist = zygote.peer_reference(ME, "ref_history", sc["pool"], sc["requests"])
+    for i, rq in enumerate(sc["requests"]):
+        if hist[i] is None:
+            continue
+        near = tuple(zygote.reference(ME, "ref_request", sc["pool"], rq["fmt"], rq))
+        far = tuple(zygote.peer_reference(ME, "ref_request", sc["pool"], rq["fmt"], rq))
+        what = "request %d (format %d, tokens %r, lenient %r)" % (i, rq["fmt"], rq["tokens"], rq["lenient"])
+        if near != far:
+            res.violate("depends_on_process", "hash_seed", "%s gives %s as the only parse of a fresh process and %s as the only parse of a fresh interpreter started under another PYTHONHASHSEED" % (what, _short(near), _short(far)))
+            return
+        if tuple(hist[i]) != far:
+            res.violate("depends_on_process", "earlier_parses", "%s gives %s as the only parse of a fresh process but %s (new parser!) after requests %r were parsed in that process" % (
+                what, _short(far), _short(tuple(hist[i])), [r["tokens"] for r in sc["requests"][:i]]))
+            return
 
 
 def execute(sc):
@@ -196,6 +276,8 @@ def execute(sc):
             earlier_dirty = True
         prev.append((rq["fmt"], rq["lenient"], want[0], has_opt))
     res.states.add(tuple((p[0], p[2], p[1]) for p in prev))
+    if sc.get("peer") and not res.violations:
+        _far_checks(sc, res)
     return res
 
 
